@@ -263,6 +263,11 @@ def build_tasks(tier):
     T.append(("server", "server", reqs[2] + bytes(UnbindRequest(message_id=9, controls=[]).pack(OPT)), "extended then unbind", 1))
     notice = bytes(ExtendedResponse(message_id=0, controls=[], result=RES(LDAPResultCode.UNAVAILABLE), name=NOTICE, value=None).pack(OPT))
     T.append(("client", "client", notice, "notice of disconnection", 1))
+    for mid in (0, 7):      # responses nobody asked for: unsolicited id 0 (not the notice) and a never-issued id
+        unsol = bytes(ExtendedResponse(message_id=mid, controls=[], result=RES(LDAPResultCode.SUCCESS), name="1.2.3", value=None).pack(OPT))
+        T.append(("client", "client", unsol, f"unsolicited extended response id {mid}", 1))
+        T.append(("client", "client", resps[0] + unsol, f"bind response then unsolicited id {mid}", 1))
+        T.append(("server", "server", unsol, f"response sent to a server id {mid}", 1))
     bad = [bytes.fromhex(h) for h in ("30050201014205", "3000", "300102", "30020205", "3003028201", "300602010142820500", "30800000", "3003020100",
                                         "300a02010177050403414243", "30060201016303040100", "300c020101600702010304000101", "0500", "ff", "1f", "308400000000",
                                         "30050201016000", "3008020101780361ff00", "3006020101630101", "300b0201016306040001010100")]
